@@ -10,6 +10,10 @@ No hvsrpy, no numpy.
 from fractions import Fraction
 
 GUARD = 10 ** 9        # knife-edge guard: 1e-9 relative
+# the end of the record: the library's last sample time is the float product (n-1)*dt, one rounding (1.1e-16
+# relative) away from the exact one; only an end within 1e-13 of it is left undecided (was 1e-9 until round 6,
+# which left a tolerance-based comparison of the end time unnoticed)
+END_GUARD = 10 ** 13
 
 
 def _common(dt, t):
@@ -45,7 +49,7 @@ def refusal(n, dt, a, b):
     """Must trim(a, b) be refused on a record of n samples?
 
     Returns (verdict, reason): verdict True (must raise), False (must not) or
-    None (knife-edge: b is within 1e-9 relative of the last sample time).
+    None (knife-edge: b is within 1e-13 relative of the last sample time).
     """
     a = float(a)
     b = float(b)
@@ -55,10 +59,10 @@ def refusal(n, dt, a, b):
         return True, "start not before end"
     P, R = _common(dt, b)
     last = (n - 1) * P
-    if abs(R - last) * GUARD <= last:
+    if abs(R - last) * END_GUARD <= last:
         if R == last:
             return False, "end exactly on the last sample"
-        return None, "end within 1e-9 of the last sample time"
+        return None, "end within 1e-13 of the last sample time"
     if R > last:
         return True, "end after the record"
     return False, "inside"
